@@ -1,5 +1,6 @@
 import AcraModel.KeystoreSec.Der
 import AcraModel.Crypto.Shim
+import Driver.V1Keys
 /-!
 Driver ops for C18 (v2 export / import at the level of plaintext key-ring views).
 
@@ -126,6 +127,6 @@ def handle (op : String) (args : List String) : Option String :=
           pure ((if ok then "ok " else "err ") ++ view T' paths)
       | _ => none
     | _ => none
-  | _, _ => none
+  | op, args => Driver.V1Keys.handleC18 op args
 
 end Driver.C18
